@@ -71,6 +71,54 @@ def bounded(tier, seed):
     for drop in (3.99, 0.499, 255.5, 1.995, 127.9):
         check(np.array([[10., 10. - drop, 10. - drop, 9.], [10., 10., 10., 10.]]), 'drop just below a power of two')
         check(np.array([[10., 10. + drop, 10. + drop, 11.], [10., 10., 10., 10.]]), 'rise just below a power of two')
+    # whole files: reference ARL encoder -> arlpackedbit reader (fields within bound, variable and level lists, times)
+    import os, tempfile, shutil
+    from datetime import datetime, timedelta
+    from rtc import refcodec as R
+    from PseudoNetCDF.noaafiles import arlpackedbit
+    tmp = tempfile.mkdtemp(prefix='verif_c20_')
+    try:
+        for ci, (nt, step_h, nz, ny, nx, start) in enumerate([(4, 12, 3, 16, 24, datetime(2010, 1, 30, 6)), (3, 24, 1, 14, 22, datetime(1999, 12, 30, 0)),
+                                                              (2, 1, 2, 15, 26, datetime(2024, 2, 28, 23))]):
+            times = [start + timedelta(hours=step_h * i) for i in range(nt)]
+            levels = [0.995, 0.9, 0.5][:nz]
+            sfckeys, laykeys = ['PRSS'], ['TEMP', 'UWND']
+            yy, xx = np.mgrid[:ny, :nx]
+            fields = {}
+            for ti in range(nt):
+                for li in range(nz + 1):
+                    for k in (sfckeys if li == 0 else laykeys):
+                        sc = {'PRSS': 30., 'TEMP': 4., 'UWND': .02}[k]
+                        fields[ti, li, k] = ({'PRSS': 1000., 'TEMP': 280., 'UWND': 0.}[k] + sc * np.sin(xx / 3. + ti + li) * np.cos(yy / 4. - li) + sc * .1 * rng.normal(size=(ny, nx))).astype('f')
+            raw, truth = R.arl_encode(times, 1.0, levels, sfckeys, laykeys, fields, nx, ny)
+            path = os.path.join(tmp, 'arl%d.bin' % ci)
+            open(path, 'wb').write(raw)
+
+            def t_file(path=path, times=times, levels=levels, fields=fields, truth=truth, nt=nt, nz=nz):
+                f = arlpackedbit(path)
+                for k in ['PRSS', 'TEMP', 'UWND']:
+                    if k not in f.variables:
+                        return 'variable %s missing (variables %r)' % (k, list(f.variables))
+                for ti in range(nt):
+                    for li in range(nz + 1):
+                        for k in (['PRSS'] if li == 0 else ['TEMP', 'UWND']):
+                            got = np.asarray(f.variables[k][ti] if li == 0 else f.variables[k][ti, li - 1], 'd')
+                            recon, nexp = truth[ti, li, k]
+                            q = 2.0 ** (nexp - 7)
+                            if got.shape != recon.shape:
+                                return 'field %s shape %r' % (k, got.shape)
+                            if np.abs(got - np.asarray(fields[ti, li, k], 'd')).max() > 1.5 * q * (1 + 1e-4) + np.abs(recon).max() * 1e-5:
+                                return 'field %s time %d level %d: error %g exceeds the bound %g' % (k, ti, li, np.abs(got - fields[ti, li, k]).max(), q)
+                got_times = [x.replace(tzinfo=None) for x in f.getTimes()]
+                if got_times != times:
+                    return 'times %s expected %s' % ([x.isoformat() for x in got_times], [x.isoformat() for x in times])
+                zs = np.asarray(f.variables['z'][:], 'd') if 'z' in f.variables else None
+                if zs is not None and not np.allclose(zs, levels, atol=1e-4):
+                    return 'level list %r expected %r' % (zs.tolist(), levels)
+                return None
+            run.case('C20:arlpackedbit reads a reference-encoded file', (nt, step_h, nz, ny, nx), t_file)
+    finally:
+        shutil.rmtree(tmp, ignore_errors=True)
     # level / variable definition text
     for vglvls, nk in (([0., 1., 0.98], 2), ([0., 1000., 925., 850.5], 3), ([0., 0.5], 1)):
         def t(vglvls=vglvls, nk=nk):
